@@ -164,7 +164,8 @@ class C19:
     rule = ("rejected inputs: accepted base programs (CoreGen, repository samples) with one fault injected on a known line L "
             "(illegal character, stray token at the end of L, wrongly typed literal initialiser, undefined name, assignment to a "
             "fin variable, wrong arguments, ill-typed operand, a return annotation on a signature line that disagrees with the value "
-            "returned lines below) inside top-level and nested blocks, in 40% of the cases after a prelude with line breaks inside "
+            "returned lines below, a faulty token behind a string literal full of escape sequences at the end of its line) inside top-level "
+            "and nested blocks, a fifth of the faulty files with CRLF line ends, in 40% of the cases after a prelude with line breaks inside "
             "string literals / doc-strings (every later line number depends on how those tokens are counted), alone or as one file of a "
             "2-3 file project; 2-mutation variants of samples; a fixed catalogue (errors raised while the context is built, "
             "errors at first/last character, in interpolations, after wide characters). Oracle on the rendered diagnostics: "
